@@ -43,7 +43,7 @@ PhaseTab == << <<0, 0, 0, 0>>, <<0, 1, 2, 3>>, <<0, 3, 1, 2>> >>
 \*   3 projector onto level 0, 4 left multiplication by a diagonal operator ("A"),
 \*   5 kick by shift 1 without scale, 6 left multiplication by "B",
 \*   7 / 8 right multiplication by "A" / "B" (operator insertions of multi-time correlations)
-CtlIds == 1..8
+CtlIds == 1..9
 
 E == Len(EDims)
 
@@ -105,7 +105,9 @@ ApplyCtl(tms, r, id) ==
                [] id = 5 -> ApplyBoth(tm, LAMBDA q : SysGate(q, <<1, 1>>), LAMBDA q : SysGate(q, <<1, 1>>))
                [] id = 6 -> [tm EXCEPT !.f = Append(tm.f, <<"B", tm.k[1]>>)]      \* left multiplication by B
                [] id = 7 -> [tm EXCEPT !.f = Append(tm.f, <<"A", tm.b[1]>>)]      \* right multiplication by A
-               [] id = 8 -> [tm EXCEPT !.f = Append(tm.f, <<"B", tm.b[1]>>)]]     \* right multiplication by B
+               [] id = 8 -> [tm EXCEPT !.f = Append(tm.f, <<"B", tm.b[1]>>)]      \* right multiplication by B
+               \* left multiplication by the non-diagonal monomial operator K = Shift(1) . diag(B)
+               [] id = 9 -> [tm EXCEPT !.k[1] = (tm.k[1] + 1) % D, !.f = Append(tm.f, <<"B", tm.k[1]>>)]]
 
 \* controls of step r on one side of the measurement.  Strict meaning: insertion order.
 \* Deviation "MixedTimeSpecOrder" (oqupy/control.py get_controls): pre-measurement controls
@@ -207,7 +209,7 @@ DiagonalStaysDiagonal ==
 
 \* hermiticity: the term of (s', s) is the mirror image of the term of (s, s')
 Hermitian ==
-    (\A c \in ctl : c[3] \notin {4, 6, 7, 8}) => \A p \in Pairs : LET q == <<p[2], p[1]>> IN
+    (\A c \in ctl : c[3] \notin {4, 6, 7, 8, 9}) => \A p \in Pairs : LET q == <<p[2], p[1]>> IN
         (terms[p].alive /\ terms[q].alive) =>
             (terms[p].k = terms[q].b /\ terms[p].b = terms[q].k /\ (terms[p].ph + terms[q].ph) % M = 0)
 
